@@ -467,12 +467,18 @@ where
                 Poll::Pending | Poll::Ready(None) => Closed,
             };
 
-            let expiration_status = match self.in_flight_requests_mut().poll_expired(cx) {
-                // No need to send a response, since the client wouldn't be waiting for one
-                // anymore.
-                Poll::Ready(Some(_)) => Ready,
-                Poll::Ready(None) => Closed,
-                Poll::Pending => Pending,
+            // Expire everything that is due before looking at the transport: a request read below
+            // returns immediately, and a response still buffered for a request that is due (but
+            // not yet expired here) would then be written after its deadline.
+            let mut any_expired = false;
+            let expiration_status = loop {
+                match self.in_flight_requests_mut().poll_expired(cx) {
+                    // No need to send a response, since the client wouldn't be waiting for one
+                    // anymore.
+                    Poll::Ready(Some(_)) => any_expired = true,
+                    Poll::Ready(None) => break if any_expired { Ready } else { Closed },
+                    Poll::Pending => break if any_expired { Ready } else { Pending },
+                }
             };
 
             let request_status = match self
